@@ -20,11 +20,12 @@ type SchedSpec struct {
 	PoolHitPct int    `json:"pool_hit_pct"`
 	PoolDropPm int    `json:"pool_drop_pm,omitempty"`
 	PoolGCPm   int    `json:"pool_gc_pm,omitempty"`
+	RandomPools bool  `json:"random_pools,omitempty"`
 }
 
 func (s SchedSpec) Config() vsim.Config {
 	return vsim.Config{Seed: s.Seed, Policy: s.Policy, StickyPct: s.StickyPct, PCTDepth: s.PCTDepth, PCTLen: s.PCTLen, DelayK: s.DelayK, DelayLen: s.DelayLen,
-		Procs: s.Procs, PoolHitPct: s.PoolHitPct, PoolDropPm: s.PoolDropPm, PoolGCPm: s.PoolGCPm}
+		Procs: s.Procs, PoolHitPct: s.PoolHitPct, PoolDropPm: s.PoolDropPm, PoolGCPm: s.PoolGCPm, RandomPools: s.RandomPools}
 }
 
 var procsChoices = []int{2, 2, 3, 3, 4, 4, 5, 6, 7, 8, 12, 16, 32}
